@@ -222,7 +222,32 @@ def random_stack(rnd, style=None):
         rid = rnd.choice(_all_rules())
         if not (style and rid in out[0]["rule"]):
             out[0]["rule"].setdefault(rid, {})["severity"] = rnd.choice(["Todo", "Note"])
+    # documented top-level 'indent' section (docs/configuring_indentation.rst): 1-3 entries of the built-in table get another value
+    if rnd.random() < 0.3:
+        sec = random_indent_section(rnd)
+        if out and rnd.random() < 0.7:
+            out[rnd.randrange(len(out))]["indent"] = sec
+        else:
+            out.append({"indent": sec})
     return out
+
+
+_INDENT_LEAVES = None
+
+
+def random_indent_section(rnd):
+    global _INDENT_LEAVES
+    if _INDENT_LEAVES is None:
+        import yaml
+
+        from harness import vsgapi
+
+        tab = yaml.safe_load(open(os.path.join(vsgapi.REPO, "vsg", "vhdlFile", "indent", "indent_config.yaml")))["indent"]["tokens"]
+        _INDENT_LEAVES = sorted((g, t, k) for g, d in tab.items() for t, dd in (d or {}).items() for k in (dd or {}))
+    toks = {}
+    for g, t, k in rnd.sample(_INDENT_LEAVES, k=rnd.randint(1, 3)) + ([("use_clause", "keyword", "token_if_no_matching_library_clause")] if rnd.random() < 0.3 else []):
+        toks.setdefault(g, {}).setdefault(t, {})[k] = rnd.choice(["current", "+1", "-1", 0, 1, 2])
+    return {"tokens": toks}
 
 
 def conf_strategy(p_default=0.45):
